@@ -393,4 +393,40 @@ end SelectionExample
 
 end selection
 
+section termOrder
+
+/-! ### The ordering of the term lists is not a strict weak ordering (root cause of finding F16)
+
+`TwoParticleGFPart` keeps its terms in `std::set<Term, Compare>`.  `Gen.Chi4.termLess` is `Compare::operator()` as EXTRACTED
+from the source: lexicographic on the three poles, where two poles closer than the tolerance count as equal.  `std::set`
+requires the induced equivalence (`neither is less`) to be transitive.  It is not, for poles that differ by a fraction of the
+tolerance: this is what happens on spectra with near-degenerate levels (finding F16; the reproduction is run against the
+real library by the checks of C02 and C06). -/
+
+/-- the equivalence `std::set` derives from the extracted comparator (instantiated at ℚ, tolerance = the extracted 1e-8) -/
+def termEquiv (f1 : Bool) (p : ℚ × ℚ × ℚ) (f2 : Bool) (q : ℚ × ℚ × ℚ) : Bool :=
+  !Gen.Chi4.termLess f1 p.1 p.2.1 p.2.2 f2 q.1 q.2.1 q.2.2 (Gen.Chi4.tolCompareNonRes : ℚ) &&
+  !Gen.Chi4.termLess f2 q.1 q.2.1 q.2.2 f1 p.1 p.2.1 p.2.2 (Gen.Chi4.tolCompareNonRes : ℚ)
+
+/-- Three terms whose third poles are 0, 0.6·10⁻⁸ and 1.2·10⁻⁸: the first is equivalent to the second, the second to the
+third, but the first is NOT equivalent to the third -- the comparator the term lists are ordered by is not a strict weak
+ordering, so `find`, `insert` and the re-insertion after an MPI broadcast may merge or lose terms depending on the order in
+which they arrive. -/
+theorem term_order_not_strict_weak :
+    termEquiv false (0, 0, 0) false (0, 0, 6 / 10 ^ 9) = true ∧
+    termEquiv false (0, 0, 6 / 10 ^ 9) false (0, 0, 12 / 10 ^ 9) = true ∧
+    termEquiv false (0, 0, 0) false (0, 0, 12 / 10 ^ 9) = false := by
+  refine ⟨?_, ?_, ?_⟩ <;>
+    simp [termEquiv, Gen.Chi4.termLess, Gen.Chi4.tolCompareNonRes, Pomerol.absR] <;> norm_num
+
+/-- the same for the first pole, where the comparator falls through to the next component -/
+theorem term_order_not_strict_weak_first_pole :
+    termEquiv true (0, 5, 0) true (6 / 10 ^ 9, 5, 0) = true ∧
+    termEquiv true (6 / 10 ^ 9, 5, 0) true (12 / 10 ^ 9, 5, 0) = true ∧
+    termEquiv true (0, 5, 0) true (12 / 10 ^ 9, 5, 0) = false := by
+  refine ⟨?_, ?_, ?_⟩ <;>
+    simp [termEquiv, Gen.Chi4.termLess, Gen.Chi4.tolCompareNonRes, Pomerol.absR] <;> norm_num
+
+end termOrder
+
 end Pomerol.Properties.C02
